@@ -79,6 +79,13 @@ func (pass *PrefixObjectNames) processStruct(visitor *Visitor, schema *ast.Schem
 	// hints can be set by users: the value isn't necessarily a disjunction
 	if disjunction, ok := structDef.Hints[ast.HintDiscriminatedDisjunctionOfRefs].(ast.DisjunctionType); ok {
 		disjunction.DiscriminatorMapping = pass.processDisjunctionMapping(schema, disjunction)
+		// the branches kept in the hint are not those of the fields
+		for i, branch := range disjunction.Branches {
+			disjunction.Branches[i], err = visitor.VisitType(schema, branch)
+			if err != nil {
+				return ast.Type{}, err
+			}
+		}
 		structDef.Hints[ast.HintDiscriminatedDisjunctionOfRefs] = disjunction
 		structDef.AddToPassesTrail(fmt.Sprintf("PrefixObjectNames[prefix=%s]", pass.Prefix))
 	}
